@@ -87,7 +87,7 @@ Theorem C06_export_round_trip : forall (r : reader AX) sp f (src : Z -> thdr),
     get_trace i false = Return (snd (nth (Z.to_nat i) (f_traces f) (tr_zero T tzero))).
 Proof. exact (export_round_trip_proof AX T tzero get_trace gen_trace_header init_head init_head_len). Qed.
 
-(* D30 (known finding): the stored binary header may announce extended textual headers, which the SGZ file does not
+(* D34 (known finding): the stored binary header may announce extended textual headers, which the SGZ file does not
    store and the exporter does not write.  Inside the guard (none announced) segyio finds trace 0 where the
    exporter put it; outside it there is a witness for which it looks 3200 bytes too far *)
 Theorem C06_export_reopen_partial : forall (r : reader AX) sp f ns, reader_ok AX r = true -> export r = Return (sp, f) ->
@@ -98,7 +98,17 @@ Theorem C06_export_reopen_refuted :
     forall (r : reader AX) sp f ns, r_stored r = stored -> reader_ok AX r = true -> export r = Return (sp, f) ->
       reopen_trace0 (f_head f) = 6800 /\ trace_offset ns 0 = 3600.
 Proof. exact (export_reopen_refuted_proof AX T tzero get_trace gen_trace_header init_head init_head_len). Qed.
+
+(* D35 (known finding): the exported delay is int(zslices[0]) for every trace, so a source whose delay is not its first
+   sample time (ScalarTraceHeader other than 0, 1, -1 with a non-zero delay; fractional start time) does not get its
+   delay back: outside the guard `src 109 = r_first_sample r` of C06_export_headers the header differs *)
+Theorem C06_export_delay_refuted : forall (r : reader AX) sp f, reader_ok AX r = true -> export r = Return (sp, f) ->
+  forall i, 0 <= i < r_tracecount r ->
+    fst (nth (Z.to_nat i) (f_traces f) (tr_zero T tzero)) 109 = r_first_sample r /\
+    forall src : thdr, src 109 <> r_first_sample r -> fst (nth (Z.to_nat i) (f_traces f) (tr_zero T tzero)) 109 <> src 109.
+Proof. exact (export_delay_refuted_proof AX T tzero get_trace gen_trace_header init_head init_head_len). Qed.
 End C06.
+Print Assumptions C06_export_delay_refuted.
 Print Assumptions C06_export_trace_order.
 Print Assumptions C06_export_headers.
 Print Assumptions C06_export_file_header_verbatim.
